@@ -88,7 +88,7 @@ def _kinematics_branch(
         qadr = jnt_qposadr[jntadr]
         xpos = wp.vec3(qpos[qadr], qpos[qadr + 1], qpos[qadr + 2])
         xquat = wp.quat(qpos[qadr + 3], qpos[qadr + 4], qpos[qadr + 5], qpos[qadr + 6])
-        xquat = wp.normalize(xquat)
+        xquat = math.normalize_quat(xquat)
 
         xpos_out[worldid, bodyid] = xpos
         xquat_out[worldid, bodyid] = xquat
@@ -123,7 +123,7 @@ def _kinematics_branch(
 
       if jnt_type_ == JointType.BALL:
         qloc = wp.quat(qpos[qadr + 0], qpos[qadr + 1], qpos[qadr + 2], qpos[qadr + 3])
-        qloc = wp.normalize(qloc)
+        qloc = math.normalize_quat(qloc)
         xquat = math.mul_quat(xquat, qloc)
         # correct for off-center rotation
         xpos = xanchor - math.rot_vec_quat(jnt_pos[jnt_pos_id, jntadr], xquat)
@@ -140,7 +140,7 @@ def _kinematics_branch(
       xaxis_out[worldid, jntadr] = xaxis
       jntadr += 1
 
-    xquat = wp.normalize(xquat)
+    xquat = math.normalize_quat(xquat)
     xpos_out[worldid, bodyid] = xpos
     xquat_out[worldid, bodyid] = xquat
 
